@@ -179,11 +179,15 @@ func condFactsOf(s Set, within ast.Node) []string {
 // perIteration returns a BlockEntry hook that kills the given labels on entry to the
 // body of every loop over the schema's index list.
 func perIteration(t *tranAnchors, labels ...string) func(fs *FuncSrc, b *cfg.Block) []string {
+	return perIterationOver(t.schemaIdx, labels...)
+}
+
+func perIterationOver(field *types.Var, labels ...string) func(fs *FuncSrc, b *cfg.Block) []string {
 	return func(fs *FuncSrc, b *cfg.Block) []string {
 		if b.Kind != cfg.KindRangeBody && b.Kind != cfg.KindForBody {
 			return nil
 		}
-		if loopOverField(fs.Info(), b.Stmt, t.schemaIdx) == nil {
+		if loopOverField(fs.Info(), b.Stmt, field) == nil {
 			return nil
 		}
 		out := make([]string, len(labels))
@@ -341,8 +345,23 @@ func checkC06(c *Ctx) string {
 				}
 				return false
 			}})}
+		fl.BlockEntry = perIterationOver(t.infoIdx, "Indexes[i]=")
 		res := fl.Analyze(fs)
 		c.RequireBefore(r3+" (on a private copy of the index list)", res, "Indexes[i]=", 1, "Indexes=Clone")
+		nback := 0
+		for _, le := range res.Loops {
+			if loopOverField(fs.Info(), le.Loop, t.infoIdx) == nil {
+				continue
+			}
+			if le.Kind == "back" {
+				nback++
+				c.Obl(r3, "every iteration of the loop over ti.Indexes stores the applied overlay", p.Pos(le.Loop), le.Before.Has("Indexes[i]="),
+					"an iteration can finish without storing the merged/saved overlay: that index keeps its old layers while the deltas were already folded")
+			} else {
+				c.Obl(r3, "the loop over ti.Indexes is not left early", p.Pos(le.Loop), false, "break in the apply loop")
+			}
+		}
+		c.Floor(r3, nback, 1, "loops over ti.Indexes in meta.Apply")
 	}
 	// 4. bulk builders: overlay for every new index; Builder.Add result used
 	r4 := "C06.4 K8+K18 bulk index builders cover every index and honour the builder's verdict"
